@@ -4,15 +4,17 @@ package main
 
 import (
 	"bufio"
+	"bytes"
 	"encoding/json"
 	"fmt"
-	"io"
 	"math"
 	"math/rand"
 	"os"
 	"path/filepath"
 
 	"github.com/berquerant/crd/midix"
+
+	"verif/harness/internal/smf"
 )
 
 // sat mode: the writer's bookkeeping at the limits of its machine arithmetic (WriterSat.tla). Lengths are multiples of
@@ -107,14 +109,42 @@ func satTrace(rng *rand.Rand, n, maxCalls int) (rec, error) {
 	}
 	w.Close()
 	emit(rec{"op": "close"})
-	_, werr := w.WriteTo(io.Discard)
+	var buf bytes.Buffer
+	_, werr := w.WriteTo(&buf)
 	outcome := "written"
 	if werr != nil {
 		outcome = "refused"
 	}
 	e := rec{"op": "write", "outcome": outcome}
 	emit(e)
-	return rec{"kind": "sattrace", "n": n, "events": events, "exact": exact}, nil
+	// what was written, per track, in units: [tick, kind, key]
+	final := make([][][]any, n)
+	for t := range final {
+		final[t] = [][]any{}
+	}
+	finalExact, parsed := true, false
+	if werr == nil {
+		f := smf.Parse(buf.Bytes())
+		parsed = f.Err == ""
+		for _, ev := range f.Events {
+			kind, key := "meta", 0
+			switch {
+			case ev.Kind == smf.KindOn && ev.B > 0:
+				kind, key = "on", ev.A
+			case ev.Kind == smf.KindOff || (ev.Kind == smf.KindOn && ev.B == 0):
+				kind, key = "off", ev.A
+			case ev.Kind == smf.KindMeta && ev.A == smf.MetaEOT:
+				kind = "eot"
+			}
+			if ev.Tick%satUnit != 0 {
+				finalExact = false
+			}
+			if ev.Track < n {
+				final[ev.Track] = append(final[ev.Track], []any{ev.Tick / satUnit, kind, key})
+			}
+		}
+	}
+	return rec{"kind": "sattrace", "n": n, "events": events, "exact": exact, "final": final, "finalExact": finalExact, "parsed": parsed}, nil
 }
 
 func satMode(seed int64, tier, out string, n int) {
